@@ -12,6 +12,7 @@ Record case := mkcase {
   c_nbf : Z; c_exp : Z;          (* s *)
   c_others : bool;               (* audience / topic / deny / scope checks are satisfiable *)
   c_pongs : bool;                (* the client answers pings *)
+  c_data : list Z;               (* ns: when messages were delivered TO this client (data writes) *)
   watch_until : Z;               (* ns: the socket was watched until then *)
   obs_accepted : bool;           (* membership observed (traffic relayed / listed in the status report) *)
   obs_closed : option Z }.       (* ns: server-side close observed at *)
@@ -22,16 +23,24 @@ Definition late_tol : Z := 500000000.
 (* the model's timeline for a client that answers every ping at once / never answers *)
 Definition rounds_until (t h : Z) : nat := S (Z.to_nat ((h - t) / ping_period)).
 
-Definition predicted_close (t f : Z) (pongs : bool) (h : Z) : option Z :=
+(* data writes are merged into the ping/pong rounds by time *)
+Fixpoint insert_ev (x : ev * Z) (l : list (ev * Z)) : list (ev * Z) :=
+  match l with
+  | [] => [x]
+  | y :: r => if snd x <? snd y then x :: l else y :: insert_ev x r
+  end.
+
+Definition predicted_close (t f : Z) (pongs : bool) (data : list Z) (h : Z) : option Z :=
   let n := rounds_until t h in
-  let evs := if pongs then idle_rounds (t + ping_period) (repeat 0 n)
-             else pings_only (t + ping_period) n in
+  let rounds := if pongs then idle_rounds (t + ping_period) (repeat 0 n)
+                else pings_only (t + ping_period) n in
+  let evs := fold_right (fun d acc => insert_ev (EDataOut, d) acc) rounds data in
   closed_at (run (start t f) evs h).
 
 Definition close_ok (c : case) (f_lo f_hi : Z) : bool :=
   let h := watch_until c + late_tol in
-  let p_lo := predicted_close (t_lo c) f_lo (c_pongs c) h in
-  let p_hi := predicted_close (t_hi c) f_hi (c_pongs c) h in
+  let p_lo := predicted_close (t_lo c) f_lo (c_pongs c) (c_data c) h in
+  let p_hi := predicted_close (t_hi c) f_hi (c_pongs c) (c_data c) h in
   match obs_closed c, p_lo, p_hi with
   | Some o, Some a, Some b => (a - early_tol <=? o) && (o <=? b + late_tol)
   | Some o, _, _ => false                          (* closed although the model keeps it open *)
